@@ -18,6 +18,7 @@ mod c07;
 mod c14;
 mod c16;
 mod c17;
+mod c18;
 mod c19;
 mod c20;
 
@@ -65,6 +66,7 @@ fn main() {
         "C12" => c12::run(&o),
         "C16" => c16::run(&o),
         "C17" => c17::run(&o),
+        "C18" => c18::run(&o),
         "C19" => c19::run(&o),
         "C07" => c07::run(&o),
         "C14" => c14::run(&o),
